@@ -27,3 +27,51 @@ void h_overloaded_attr(void)
         __CPROVER_assert(g_rep_calls == 0, "C04 a fresh attribute name is not reported");
     __CPROVER_assert(g_gna_calls == 0 || (g_gna_entity == &supr && g_gna_name == n_attr), "the inherited-attribute look-up is asked about the supertype and the attribute's name");
 }
+
+/* C04: a subtype that does not list its supertype is rejected (MISSING_SUPERTYPE) */
+void h_missing_supertype(void)
+{
+    IN(int, in_lists);   /* 0: sub lists nobody, 1: sub lists ent, 2: sub lists another entity */
+    static struct Scope_ ent, sub, other; static struct Entity_ en, su, ot;
+    static struct Linked_List_ subs, sups; static struct Link_ bm, b1, pm, p1; static char n1[2] = "p", n2[2] = "c";
+    __CPROVER_assume(in_lists >= 0 && in_lists <= 2);
+    ent.u.entity = &en; sub.u.entity = &su; other.u.entity = &ot; ent.symbol.name = n1; sub.symbol.name = n2; sub.symbol.resolved = RESOLVED;
+    subs.mark = &bm; bm.next = &b1; bm.prev = &b1; b1.next = &bm; b1.prev = &bm; b1.data = &sub; en.subtypes = &subs;
+    sups.mark = &pm; if (in_lists) { pm.next = &p1; pm.prev = &p1; p1.next = &pm; p1.prev = &pm; p1.data = in_lists == 1 ? &ent : &other; } else { pm.next = &pm; pm.prev = &pm; }
+    su.supertypes = &sups;
+    g_rep_calls = 0;
+    ENTITYcheck_missing_supertypes(&ent);
+    if (in_lists == 1) __CPROVER_assert(g_rep_calls == 0 && !(sub.symbol.resolved & RESOLVE_FAILED), "a subtype that lists its supertype is accepted");
+    else {
+        __CPROVER_assert(g_rep_calls == 1 && g_rep_errnum == MISSING_SUPERTYPE && (sub.symbol.resolved & RESOLVE_FAILED), "C04 a subtype that does not list its supertype is rejected with MISSING_SUPERTYPE and marked failed");
+        __CPROVER_assert(g_rep_sym == &sub.symbol && g_rep_a1 == (const void *)n1 && g_rep_a2 == (const void *)n2, "C20 the diagnostic is attributed to the subtype and quotes the supertype and the subtype");
+    }
+}
+
+/* C04: an entity reachable from itself through subtype links is rejected (SUBSUPER_LOOP) */
+static void check_cycle(int n0, int n1, int n2)
+{
+    static struct Scope_ en[3]; static struct Entity_ ee3[3]; static struct Linked_List_ sl[3]; static struct Link_ sm3[3], s13[3]; static char nm[3][2] = { "a", "b", "c" };
+    int nx[3] = { n0, n1, n2 };
+    for (int k = 0; k < 3; k++) {
+        en[k].u.entity = &ee3[k]; en[k].symbol.name = nm[k]; en[k].search_id = 0;
+        sl[k].mark = &sm3[k];
+        if (nx[k] < 3) { sm3[k].next = &s13[k]; sm3[k].prev = &s13[k]; s13[k].next = &sm3[k]; s13[k].prev = &sm3[k]; s13[k].data = &en[nx[k]]; }
+        else { sm3[k].next = &sm3[k]; sm3[k].prev = &sm3[k]; }
+        ee3[k].subtypes = &sl[k];
+    }
+    __SCOPE_search_id = 5;
+    /* spec: is a reachable from a (out-degree <= 1, so follow the chain at most 3 steps) */
+    int cur = nx[0], cyc = 0;
+    for (int step = 0; step < 3; step++) { if (cur == 0) cyc = 1; if (cur >= 3) break; cur = nx[cur]; }
+    g_rep_calls = 0;
+    ENTITYcheck_subsuper_cyclicity(&en[0]);
+    if (cyc) __CPROVER_assert(g_rep_calls >= 1, "C04 an entity that is (transitively) a subtype of itself is rejected with an ERROR-class diagnostic");
+    else __CPROVER_assert(g_rep_calls == 0, "an acyclic subtype chain is accepted");
+}
+/* all 64 link graphs over 3 entities with at most one subtype each, enumerated concretely (symbolic links make cbmc
+   explore every pointer target at every recursion level) */
+void h_subsuper_cycle(void)
+{
+    for (int a = 0; a < 4; a++) for (int b = 0; b < 4; b++) for (int c = 0; c < 4; c++) check_cycle(a, b, c);
+}
